@@ -4,7 +4,7 @@ from ..report import V
 from . import C01
 
 PID = 'C03'
-MONS = [monitors.m_sanity, monitors.m_feasible]
+MONS = [monitors.m_sanity, monitors.m_feasible, monitors.m_infeasible]
 T = alphabets.T
 
 
@@ -17,7 +17,11 @@ def full_alphabet():
         T('E', 'B', '1 mL'), T('E', 'B', '1 g'), T('E', 'A', '1 mmol'), T('G', 'A', '1 U'),         # empty source / no enzyme
         T('A', 'P', '300 uL'), T('B', ['P', "(2, slice(None))"], '450 uL'),                          # overflow at a later well
         T('P', 'E', '150 uL'),
+        {'op': 'fill_to', 'obj': 'P', 'solvent': 'water', 'q': '500 uL'},          # every well of P to the brim
         {'op': 'add', 'obj': 'E', 'what': 'tea', 'q': '1.5 mL'}, {'op': 'add', 'obj': 'B', 'what': 'water', 'q': '16 mL'},
+        # solids and an enzyme measured by VOLUME (a legitimate request: they have a density)
+        {'op': 'add', 'obj': 'E', 'what': 'nacl', 'q': '0.2 mL'}, {'op': 'fill_to', 'obj': 'E', 'solvent': 'na2so4', 'q': '0.5 mL'},
+        {'op': 'new_container', 'name': 'X', 'max': '5 mL', 'contents': [['nacl', '0.3 mL'], ['lipase', '10 uL']]},
         {'op': 'fill_to', 'obj': 'B', 'solvent': 'dmso', 'q': '4 mL'},           # below the current quantity
         {'op': 'fill_to', 'obj': 'B', 'solvent': 'dmso', 'q': '25 mL'},          # beyond the capacity
         {'op': 'fill_to', 'obj': 'A', 'solvent': 'water', 'q': '30 g'},
@@ -467,7 +471,8 @@ def replay_program(pp, case):
 def run(col):
     pp = env.load()
     col.rule = ("(a) state-sanity monitor (amounts >= 0, 0 <= volume <= capacity) on every object returned, and feasibility monitor "
-                "(a transfer / remove / fill_to that clearly fits must not raise; only ValueError/TypeError/RuntimeError are ever raised) along every "
+                "(a transfer / remove / fill_to that clearly fits must not raise, one that clearly over-draws / over-fills / undershoots must not "
+                "return; only ValueError/TypeError/RuntimeError are ever raised) along every "
                 "history of the full operation menu incl. infeasible requests, depth 2 (quick) / 3 (thorough), plus the "
                 "C01 geometry/unit sweeps and C01's 48-action history alphabet to depth 3 / 4; (b) boundary enumeration: for every operation and feasibility constraint the "
                 "requests below / at / above the boundary, directly and as a recipe step, classified must-accept / "
@@ -486,6 +491,15 @@ def run(col):
         # the transfer-heavy history alphabet of C01 (drained wells, pooled wells, same-plate transfers) under the same monitors
         e1.Explorer(pp, v, e1.W_DEFAULT, e1.seed_history_P(), alphabets.history_alphabet(), MONS, 'H').run(
             3 if col.tier == 'quick' else 4, col)
+        # two versions of one plate (distinct objects under one name, other contents): feasibility is judged on the plate that
+        # is actually addressed
+        wv = dict(e1.W_DEFAULT, Pv=('plate', '500 uL', 2, 3, 'P'))
+        hv = e1.seed_history_P() + [alphabets.T('B', ['Pv', f"({r}, {c})"], f"{4 * (r + c)} uL") for r in (1, 2) for c in (1, 2, 3)]
+        vers = [alphabets.T(['Pv', a] if a != 'WHOLE' else 'Pv', ['P', b] if b != 'WHOLE' else 'P', q)
+                for a in alphabets.P_SLICES[::2] + ['WHOLE'] for b in alphabets.P_SLICES[1::2] + ['WHOLE', alphabets.P_SLICES[0]]
+                for q in ('4 uL', '15 uL', '1 mg')] + \
+               [alphabets.T(['P', a], ['Pv', b], '15 uL') for a in alphabets.P_SLICES[::3] for b in alphabets.P_SLICES[1::3]]
+        e1.Explorer(pp, v, wv, hv, vers, MONS, 'V/same-named-plates').run(1, col)
         recipe_programs(col, pp, v, 2 if col.tier == 'quick' else 3)
 
 
